@@ -220,6 +220,10 @@ def gen_c05(seed_i):
             else:
                 size = rng.choice([0, 10, 60, max(0, limit // 2), max(0, limit - 160)])
             ops.append({"size": size, "sync": rng.random() < 0.6, "pre": rng.choice([0, 0, 0.01, 0.1, 0.6, 1.5])})
+            if rng.random() < 0.2 and size:
+                # non-ASCII payload text: `size` characters are 3x as many UTF-8 bytes and 6x as many escaped bytes
+                ops[-1]["uni"] = True
+                ops[-1]["size"] = max(1, size // rng.choice([2, 3, 6]))
         ops[-1]["sync"] = True
         producers.append(ops)
     sched = {"policy": rng.choice(["walk", "walk", "pct", "default"]), "seed": rng.randrange(1 << 30), "p": rng.choice([0.05, 0.3, 0.6]),
@@ -243,6 +247,13 @@ def _fail_exc(f):
     return {"RuntimeError": RuntimeError, "ConnectionError": ConnectionError}[f["exc"]]("injected failure")
 
 
+def _wire_size(u):
+    """Bytes of one update on the wire, in the most compact of the two JSON encodings a client could use (escaped
+    ASCII as botocore does, or raw UTF-8): a batch is over the limit only if it is over it by either measure."""
+    d = u.to_dict()
+    return min(len(json.dumps(d).encode()), len(json.dumps(d, ensure_ascii=False).encode()))
+
+
 class _ProtoService:
     """Protocol-level fake of the durable service for the component harness."""
 
@@ -264,7 +275,7 @@ class _ProtoService:
         lsvc = seams.sdk("lambda_service")
         lo, hi = self.cfg["latency"]
         names = [u.name for u in updates]
-        size = sum(len(json.dumps(u.to_dict()).encode()) for u in updates)
+        size = sum(_wire_size(u) for u in updates)
         self.rec("api-begin", token=checkpoint_token, names=names, size=size)
         self.s.sleep(lo + (hi - lo) * self.rng.random(), True, "api")
         self.n_ckpt += 1
@@ -277,7 +288,7 @@ class _ProtoService:
             self.rec("api-fail", names=names, applied=False)
             raise _fail_exc(f)
         self.calls.append({"token": checkpoint_token, "expected": self.expected, "names": names, "size": size,
-                           "sizes": [len(json.dumps(u.to_dict()).encode()) for u in updates]})
+                           "sizes": [_wire_size(u) for u in updates]})
         self.tok += 1
         self.expected = f"tok-{self.tok}"
         self.rec("api-applied", names=names)
@@ -360,7 +371,7 @@ def run_c05(cfg):
                 upd = None
                 if op["size"] is not None:
                     upd = lsvc.OperationUpdate.create_step_succeed(
-                        ident.OperationIdentifier(operation_id=f"id-{pi}-{oi}", parent_id=None, name=name), payload="x" * op["size"])
+                        ident.OperationIdentifier(operation_id=f"id-{pi}-{oi}", parent_id=None, name=name), payload=("\u65e5" if op.get("uni") else "x") * op["size"])
                 rec("cp-call", p=pi, o=oi, name=name if upd is not None else None, sync=op["sync"])
                 try:
                     es.create_checkpoint(upd, is_sync=op["sync"])
